@@ -9,7 +9,7 @@ from ..poly import sym
 from ..specs.kernels import CATALOGUE
 from ..summaries import summarize
 from ..values import Arr, DType, RaisedInAnalysed, Unsupported
-from .common import entry_summary
+from .common import entry_summary, entry_trace
 from .simtools import FLOW, build_sim, sim_configs, stepped_sim, trace_step
 
 IBO = "sopht.numeric.immersed_boundary_ops"
@@ -20,11 +20,8 @@ def catalogue_traces(S, tier):
         if tier == "quick":
             if e.opts.get("width", 1) > 2 or e.opts.get("filter_order", 1) > 2:
                 continue
-        sm, raised, _, _ = entry_summary(S, e)
-        if sm is None:
-            yield "kernel " + e.label(), [], [], raised
-        else:
-            yield "kernel " + e.label(), sm.trace, sm.problems, sm.raised
+        tr, pr, raised = entry_trace(S, e)
+        yield "kernel " + e.label(), tr, pr, raised
 
 
 def ssprk3_trace(S):
